@@ -228,6 +228,7 @@ func VerifH_C14_atomic_v1() {
 	}
 	n := vapi.Int("set", 1, 3)
 	var set []types.Transaction
+	fresh := make([]bool, n)
 	allPooled := true
 	for i := 0; i < n; i++ {
 		switch vapi.Int("kind", 0, 2) {
@@ -235,6 +236,7 @@ func VerifH_C14_atomic_v1() {
 			t := newV1(w.tag(), w.parent())
 			absTxBad(v1tag(t))
 			set = append(set, t)
+			fresh[i] = true
 			allPooled = false
 		case 1: // already pooled
 			set = append(set, w.v1[vapi.Int("which", 0, len(w.v1)-1)])
@@ -256,6 +258,15 @@ func VerifH_C14_atomic_v1() {
 		for _, id := range pre1 {
 			_, ok := w.c.m.PoolTransaction(id)
 			vapi.Assert("atomic-v1.pooled-before-still-found", ok)
+		}
+		// ... and leaves no trace: a fresh member that is valid on its own is
+		// accepted when it is submitted again alone
+		for i := range set {
+			if fresh[i] && !absP.txBad[v1tag(set[i])] {
+				_, e := w.c.m.AddPoolTransactions([]types.Transaction{set[i]})
+				vapi.Assert("atomic-v1.rejection-leaves-no-trace", e == nil)
+				break
+			}
 		}
 	} else if known {
 		vapi.Reach("known")
